@@ -23,7 +23,7 @@ ASSUMPTIONS = [
 PATTERNS = [
     "/a", "/a.b", "/a+b", "/b",
     "/{x}", "/{x:int}", "/{x:decimal}", "/{x:uuid}", "/{x:date}", "/{x:any}",
-    "/a/{x:int}", "/é/{x}", "/{x}/b", "/{x:int}/{y}", "/a/{x:any}", "/v{x:int}.{y:int}", "/{x}.txt", "/{x:decimal}/b", "/{x:date}/{y:uuid}",
+    "/a/{x:int}", "/é/{x}", "/{x}/b", "/{x:int}/{y}", "/a/{x:any}", "/v{x:int}.{y:int}", "/{x}.txt", "/{x:decimal}/b", "/{x:date}/{y:uuid}", "/{x:decimal}/{y}", "/{x:decimal}/{n:int}",
 ]
 UU = "90478484-0988-45fc-91fe-757d90136892"
 SEGS = [
@@ -64,7 +64,10 @@ def build_router(iface, table, log):
 
         def make(i):
             def ep(environ, start_response):
-                log.append((i, dict(W.Request(environ).path_params)))
+                pp = W.Request(environ).path_params
+                log.append((i, dict(pp)))
+                pp["touched-by-endpoint"] = True  # an application may use the mapping as scratch space; the next request must get its own
+                pp.pop(next(iter(pp)), None)
                 return W.PlainTextResponse(str(i))(environ, start_response)
             return ep
         return W.Router(*[(p, make(i)) for i, p in enumerate(table)])
@@ -72,14 +75,17 @@ def build_router(iface, table, log):
 
     def amake(i):
         async def ep(scope, receive, send):
-            log.append((i, dict(A.Request(scope, receive, send).path_params)))
+            pp = A.Request(scope, receive, send).path_params
+            log.append((i, dict(pp)))
+            pp["touched-by-endpoint"] = True
+            pp.pop(next(iter(pp)), None)
             return await A.PlainTextResponse(str(i))(scope, receive, send)
         return ep
     return A.Router(*[(p, amake(i)) for i, p in enumerate(table)])
 
 
-def call(iface, router, path):
-    req = SV.AReq(path=path)
+def call(iface, router, path, root=""):
+    req = SV.AReq(path=path, root=root)
     if iface == "wsgi":
         res = SV.run_wsgi(router, SV.to_environ(req))
     else:
@@ -117,13 +123,13 @@ def expected(table, path):
     return None
 
 
-def judge(iface, table, path, r, routers):
+def judge(iface, table, path, r, routers, root=""):
     log = routers[iface][1]
     del log[:]
-    res = call(iface, routers[iface][0], path)
+    res = call(iface, routers[iface][0], path, root)
     r.count("evaluations")
     exp = expected(table, path)
-    w = {"iface": iface, "table": list(table), "path": path if len(path) < 200 else path[:20] + f"...({len(path)} chars)", "full_path_len": len(path)}
+    w = {"iface": iface, "table": list(table), "root": root, "path": path if len(path) < 200 else path[:20] + f"...({len(path)} chars)", "full_path_len": len(path)}
     if len(path) >= 200:
         w["path_recipe"] = path.replace(BIG, "<BIG>")
     toobig = BIG in path
@@ -179,6 +185,7 @@ def run_shard(desc, tier):
                 tables.append((PATTERNS[first],) + rest)
         # the full path list is run for tables of size <= 2; for size 3 (thorough) paths are limited to <= 2 segments
         short = paths(min(d, 2)) if k >= 3 else ps
+        one_seg = paths(1)
         for table in tables:
             routers = {}
             for iface in ("wsgi", "asgi"):
@@ -187,6 +194,15 @@ def run_shard(desc, tier):
             for path in (ps if len(table) <= 2 else short):
                 for iface in ("wsgi", "asgi"):
                     judge(iface, table, path, r, routers)
+            # the same instances again (state carried between requests), and below a mount point whose name recurs in the path
+            again = short if len(table) == 1 else one_seg
+            for path in again[::-1]:
+                for iface in ("wsgi", "asgi"):
+                    judge(iface, table, path, r, routers)
+            for root in ("/a", "/1"):
+                for path in again:
+                    for iface in ("wsgi", "asgi"):
+                        judge(iface, table, path, r, routers, root)
         r.sample({"table": list(tables[-1]), "path": ps[7]})
     else:
         roundtrip(r)
@@ -252,5 +268,7 @@ def replay(w):
     table = tuple(w["table"])
     log = []
     routers = {w["iface"]: (build_router(w["iface"], table, log), log)}
-    judge(w["iface"], table, path, r, routers)
+    for p2 in paths(2):  # same history as the exploration: the instance has served the short list before
+        judge(w["iface"], table, p2, R(), routers)
+    judge(w["iface"], table, path, r, routers, w.get("root", ""))
     return bool(r.viol), {"violations": sorted(r.viol), "texts": [v[2][:300] for v in r.viol.values()]}
